@@ -182,7 +182,7 @@ VARIANTS = [
     V("C11", "unparse round trip", GEN, "<<unparse>>", "", None),
     # ------------------------------------------------------------------ C10
     V("C10", "stub written under cwd", GS, "        file_path = Path(corrected_module_dir / f\"{public_module_name}.sdsstub\")\n        Path(file_path).touch()", "        file_path = Path(Path.cwd() / f\"{public_module_name}.sdsstub\")\n        Path(file_path).touch()", "C10.WRITE-SINKS"),
-    V("C10", "module stubs appended", GS, "        with file_path.open(\"w\", encoding=\"utf-8\") as f:\n            f.write(module_text)\n\n        # The stub of a module", "        with file_path.open(\"a\", encoding=\"utf-8\") as f:\n            f.write(module_text)\n\n        # The stub of a module", "C10.WRITE-MODE"),
+    V("C10", "module stubs appended", GS, "        with file_path.open(\"w\", encoding=\"utf-8\", errors=\"backslashreplace\") as f:\n            f.write(module_text)\n\n        # The stub of a module", "        with file_path.open(\"a\", encoding=\"utf-8\", errors=\"backslashreplace\") as f:\n            f.write(module_text)\n\n        # The stub of a module", "C10.WRITE-MODE"),
     V("C10", "placeholder appended whenever file exists", GS, "    if Path.exists(file_path) and not first_creation:", "    if Path.exists(file_path):", "C10.WRITE-MODE"),
     V("C10", "created paths not threaded", GS, "        created_module_paths = _create_outside_package_class(class_, out_path, naming_convention, created_module_paths)", "        _create_outside_package_class(class_, out_path, naming_convention, set())", "C10.WRITE-MODE"),
     V("C10", "api file named after package", "api_analyzer/cli/_cli.py", 'out_file_api = out_dir_path.joinpath(f"{src_dir_path.name}__api.json")', 'out_file_api = out_dir_path.joinpath(f"{api.package}__api.json")', "C10.API-NAME"),
@@ -277,7 +277,7 @@ VARIANTS += [
     V("C01", "dotless names registered as outside classes", GEN, "                if \".\" not in qname:\n                    # A name without a module path, e.g. an unresolved type name of a docstring, cannot be imported\n                    return\n\n", "", "C01.PARTIAL-OPS"),
     V("C01", "no early exit before last parameter doc", DP, "        if len(matching_parameters) == 0:\n            return ParameterDocstring()\n", "", "C01.PARTIAL-OPS"),
     V("C01", "length test weakened", GS, "(len(splitted_text) == 3 and splitted_text[1].startswith(\"package \"))", "(len(splitted_text) != 3 and splitted_text[3].startswith(\"package \"))", "C01.PARTIAL-OPS"),
-    V("C01", "pop before the guarded index", VIS, "                if len(types) == 1:\n                    return sds_types.FinalType(type_=types[0])", "                if len(types) == 1:\n                    types.pop()\n                    return sds_types.FinalType(type_=types[0])", "C01.PARTIAL-OPS"),
+    V("C01", "pop before the guarded index", VIS, "                if len(unanalyzed_args) == 1:\n                    # Mypy has removed the \"Final\", the analyzed type is the type of the argument\n                    return sds_types.FinalType(type_=self.mypy_type_to_abstract_type(mypy_type, unanalyzed_args[0]))", "                if len(unanalyzed_args) == 1:\n                    unanalyzed_args.pop()\n                    return sds_types.FinalType(type_=self.mypy_type_to_abstract_type(mypy_type, unanalyzed_args[0]))", "C01.PARTIAL-OPS"),
     V("C01", "loop variable no longer advanced", DP, "                    left_bin = left_bin.left\n", "                    pass\n", "C01.TERM"),
     V("C01", "recursion on the same node", MH, "        return mypy_expression_to_sds_type(expr.expr)\n", "        return mypy_expression_to_sds_type(expr)\n", "C01.TERM"),
     V("C01", "attribute the library does not have", GA, "fullname = key.node.target.type.fullname", "fullname = key.node.target.type.full_name", "C01.LIBAPI"),
@@ -307,14 +307,14 @@ VARIANTS += [
 ]
 VARIANTS += [
     V("C01", "output directory must not exist", GS, "        corrected_module_dir.mkdir(parents=True, exist_ok=True)", "        corrected_module_dir.mkdir(parents=True)", "C01.FS-TOLERANT"),
-    V("C01", "stub written with the locale's encoding", GS, "        with file_path.open(\"w\", encoding=\"utf-8\") as f:\n            f.write(module_text)", "        with file_path.open(\"w\") as f:\n            f.write(module_text)", "C01.FS-TOLERANT"),
+    V("C01", "stub written with the locale's encoding", GS, "        with file_path.open(\"w\", encoding=\"utf-8\", errors=\"backslashreplace\") as f:\n            f.write(module_text)", "        with file_path.open(\"w\", errors=\"backslashreplace\") as f:\n            f.write(module_text)", "C01.FS-TOLERANT"),
     V("C01", "strict JSON", API, "json.dump(self.to_dict(), f, indent=2)", "json.dump(self.to_dict(), f, indent=2, allow_nan=False)", "C01.FS-TOLERANT"),
     V("C01", "benign: sorted JSON keys", API, "json.dump(self.to_dict(), f, indent=2)", "json.dump(self.to_dict(), f, indent=2, sort_keys=False)", None),
 ]
 VARIANTS += [
     V("C09", "one-letter names skip the conversion", HELP, "    if not name.strip(\"_\") or naming_convention == NamingConvention.PYTHON:", "    if len(name) < 2 or not name.strip(\"_\") or naming_convention == NamingConvention.PYTHON:", "C09.CONVERT-SHAPE"),
-    V("C09", "class mode keeps the first part", HELP, "        return \"\".join(part[0].upper() + part[1:] for part in name_parts if part)", "        return name_parts[0] + \"\".join(part[0].upper() + part[1:] for part in name_parts[1:] if part)", "C09.CONVERT-SHAPE"),
-    V("C09", "benign: capitalise helper expression", HELP, "        return \"\".join(part[0].upper() + part[1:] for part in name_parts if part)", "        return \"\".join([part[0].upper() + part[1:] for part in name_parts if part])", None),
+    V("C09", "class mode keeps the first part", HELP, "        converted_name = \"\".join(part[0].upper() + part[1:] for part in name_parts if part)", "        converted_name = name_parts[0] + \"\".join(part[0].upper() + part[1:] for part in name_parts[1:] if part)", "C09.CONVERT-SHAPE"),
+    V("C09", "benign: capitalise helper expression", HELP, "        converted_name = \"\".join(part[0].upper() + part[1:] for part in name_parts if part)", "        converted_name = \"\".join([part[0].upper() + part[1:] for part in name_parts if part])", None),
 ]
 VARIANTS += [
     V("C07", "returned variable taken for a class again", MH, "        elif expr.name != \"None\" and isinstance(expr.node, mp_nodes.Var):\n            # The name of a variable or parameter is not the name of its type\n            return sds_types.UnknownType()\n", "", "C07.INFER-TABLE"),
